@@ -44,7 +44,7 @@ def zipArg : String → Option (List Val)
   | _ => none
 
 def foldFn : String → Option (Val → Val → Val)
-  | "a1" => some fun a x => .n (iv a * 3 + iv x)
+  | "a1" => some fun a x => .n ((iv a * 3 + iv x) % 1000003)
   | _ => none
 
 def parseAd (tok : String) : Option Ad :=
